@@ -15,7 +15,7 @@ CHECKS = {
          "Bounded (D<=4/N<=3 quick, D<=5/N<=4 thorough); bundles include a despawn trigger on an entity the histories can despawn (revocation between a despawn and its detection); an `ewr` series revokes by removing triggers from an entity world reactor; a `removals` group (type-wide and entity-scoped removal reactors sharing one tracker) reports the polled rules of C08 as well; the in-tree series end with a second top-level trigger and hold a reactor with two separately revokable registrations.", "DESIGN.md 5 C06"),
  "C07": ("cobweb-mc", "model_checking", LP,
          "Histories of registering new reactors (3 modes x 7 bundles incl. empty, despawn triggers, entity triggers possibly naming dead entities), revoke, fire, despawn of trigger entities, explicit Gc / Poll, fires from inside runs. Liveness of every reactor is sampled at every command marker and compared with an abstract reference count (live registrations + pending despawn reactions); after the first garbage collection following count 0 the reactor must be gone and its captured canary dropped; persistent reactors must always exist.",
-         "Bounded (D<=4 quick, D<=6 thorough); several ref-counted registrations of one system command are documented as unsupported and not generated.", "DESIGN.md 5 C07"),
+         "Bounded (D<=4 quick, D<=6 thorough); several ref-counted registrations of one system command are documented as unsupported and not generated; an `app-persistent` series has reactors added with App::add_reactor whose triggers are all entity-bound.", "DESIGN.md 5 C07"),
  "C08": ("cobweb-mc", "model_checking", LP,
          "Histories of insert / remove / re-insert / despawn / recursive despawn (entity 1 is a child of entity 0) at top level and inside reactor runs, with type-wide and entity-scoped removal reactors, one or two despawn reactors per entity, a reactor registered mid-history; polls explicit ('flush') or by App::update after every top-level op ('frames', Last schedule). A hook reports when a poll schedules a reaction; the monitor requires a cause for every scheduled reaction (an unreacted removal / despawn for a registration live at that moment), at most one per registration per event, every registration live throughout reacted by the end of the enclosing tree / next poll, and every scheduled reaction run by quiescence.",
          "Bounded (D<=4 quick, D<=6 thorough); series: flush, frames, systems-chained / systems-unordered (operations issued by real Update systems, every assignment = every order), entity-only, two-comps-ab/ba (two reactive component types polled by one pass), despawn-many (several polled reactions of one ref-counted reactor postponed at once), orphan-tracker (an entity that kept its despawn tracker after its only reactor was revoked), frames-plugin-late (reactors added with App::add_reactor before ReactPlugin).", "DESIGN.md 5 C08, 11.2"),
